@@ -394,7 +394,8 @@ def _calc_theory_contract(reg):
                        and kp.get("radius", (None, None))[1] is before["radius"][1]
                        and log.get("cutoff") is cutoff and log.get("kernel") is kern)
             reg.prove("%s.calc_theory.kernel_called_with_background_zero.%s" % (PROP, data_type), pc,
-                      z3.BoolVal(bool(ok_pars)), function=fn)
+                      z3.BoolVal(bool(ok_pars)), function=fn,
+                      replay=lambda mdl=None, data_type=data_type: _calc_theory_replay(data_type))
             g = z3.BoolVal(False)
             if isinstance(out, SArr) and isinstance(log.get("applied"), SArr):
                 g = z3.And(log["applied"].at(j) == K(j), out.at(j) == A(j) + bspec)
@@ -427,8 +428,22 @@ def _calc_theory_replay(data_type):
     y1 = calc(radius=200.0, background=0.37)
     diff = np.asarray(y1) - np.asarray(y0)
     bad = not np.allclose(diff, want, rtol=1e-9, atol=1e-12)
-    return bool(bad), {"call": "DirectModel(<%s data>, sphere)(background=0.37) - (background=0)" % data_type,
-                       "real": diff[:4].tolist(), "spec": want}
+    info = {"call": "DirectModel(<%s data>, sphere)(background=0.37) - (background=0)" % data_type,
+            "real": diff[:4].tolist(), "spec": want}
+    if not bad and data_type == "Iq":
+        # the cutoff given to DirectModel reaches the kernel: perfect resolution, two dispersed parameters
+        from sasmodels.direct_model import call_kernel
+        cyl = core.load_model("cylinder")
+        q = np.logspace(-2, -0.5, 6)
+        d0 = sdata.empty_data1D(q, resolution=0.0)
+        pars = dict(radius=30.0, length=200.0, radius_pd=0.3, radius_pd_n=12, length_pd=0.3, length_pd_n=12, background=0.0)
+        got = np.asarray(DirectModel(d0, cyl, cutoff=1e-3)(**pars))
+        ref = np.asarray(call_kernel(cyl.make_kernel([q]), pars, cutoff=1e-3))
+        if not np.allclose(got, ref, rtol=1e-12):
+            bad = True
+            info = {"call": "DirectModel(data, cylinder, cutoff=1e-3)(radius_pd=0.3, length_pd=0.3) vs call_kernel(..., cutoff=1e-3)",
+                    "real": got.tolist(), "spec": ref.tolist()}
+    return bool(bad), info
 
 
 def _name_checks(reg):
